@@ -95,6 +95,14 @@ def check_table(case):
     except Exception as err:  # noqa
         sig = {'kind': 'table_write_raises', 'exc': type(err).__name__, 'int16_cell': 'int16' in kinds}
         return [(sig, 'LrTableWrite%r: %s: %s' % ((case['lrtype'], case['name'], cols, table_arg), type(err).__name__, err))], ('raise',)
+    # the rows given as a one-shot iterable (a zip or a generator, walked once) make the same table
+    try:
+        tw3 = LogiRec.LrTableWrite(case['lrtype'], case['name'], cols, (row for row in table_arg))
+        body3 = bytes([case['lrtype'], 0]) + b''.join(bytes(b) for b in tw3.genLisBytes())
+        if body3 != body:
+            bad.append(({'kind': 'table_bytes_from_a_generator_differ'}, 'rows given as a generator: %d bytes, as a list %d bytes' % (len(body3), len(body))))
+    except Exception as err:  # noqa
+        bad.append(({'kind': 'table_write_raises', 'exc': type(err).__name__, 'rows': 'generator'}, 'rows given as a generator: %s: %s' % (type(err).__name__, err)))
     # listing the rows (in any order) is a query: a second writer that is asked for its sorted row names first writes the same bytes
     try:
         tw2 = LogiRec.LrTableWrite(case['lrtype'], case['name'], cols, table_arg)
@@ -303,6 +311,14 @@ def check_dfsr(case):
             vb = eb_value_bytes(rc, v)
             ebs.setEntryBlock(LogiRec.EntryBlock(t, len(vb), rc, v))
         eb_bytes = bytes(ebs.lisBytes())
+        # the list of encoded blocks handed out is the caller's (who appends the channel blocks to it): the set encodes as before afterwards
+        if hasattr(ebs, 'lisByteList'):
+            mine = ebs.lisByteList()
+            mine.append(b'CHANNEL BLOCKS OF THE CALLER')
+            again = bytes(ebs.lisBytes())
+            if again != eb_bytes:
+                bad.append(({'kind': 'entry_block_list_aliased'}, 'after the caller appended to the list returned by lisByteList() the set encodes as %d bytes, %d before'
+                            % (len(again), len(eb_bytes))))
     except Exception as err:  # noqa
         return [({'kind': 'entry_block_write_raises', 'exc': type(err).__name__, 'int16_value': has16},
                  'EntryBlockSet with %r: %s: %s' % (blocks, type(err).__name__, err))], ('raise',)
